@@ -48,12 +48,18 @@ impl fmt::Display for Sym {
         }
     }
 }
-/// `Debug` is what `DeepEx::unparse` prints for a literal; it has to be re-readable.
+/// `Debug` is what `DeepEx::unparse` prints for a literal: a literal prints as its text, a folded
+/// value as a re-parseable expression over the operator names of the current table.
 impl fmt::Debug for Sym {
     fn fmt(&self, f: &mut fmt::Formatter<'_>) -> fmt::Result {
+        let name = |k: usize| -> String { TABLE.read().unwrap().get(k).map(|c| c.name.to_string()).unwrap_or_default() };
         match self {
+            Sym::Hole => write!(f, "HOLE"),
             Sym::Lit(s) => write!(f, "{}", s),
-            other => write!(f, "{}", other),
+            Sym::Var(i) => write!(f, "VAR{}", i),
+            Sym::Const(k) => write!(f, "({})", name(*k)),
+            Sym::Un(k, a) => write!(f, "{}({:?})", name(*k), a),
+            Sym::Bin(k, a, b) => write!(f, "({:?} {} {:?})", a, name(*k), b),
         }
     }
 }
